@@ -317,7 +317,15 @@ def check(prop, tier, seed, replay, lock):
     mod = importlib.import_module(f"harness.props.{prop.lower()}")
     if replay:
         rec = json.load(open(replay))
-        if rec["case"].get("kind") == "malformed-result":
+        if rec["case"].get("kind") == "prelude":
+            from harness.core import numpoly as _np
+            try:
+                with _np.global_options(retain_names=False, retain_coefficients=True, sort_graded=False, display_inverse=False):
+                    _np.variable(2) + 1
+                res = None
+            except Exception as err:  # noqa: BLE001
+                res = f"{type(err).__name__}: {err}"
+        elif rec["case"].get("kind") == "malformed-result":
             try:
                 mod.run(ctx)
                 res = None
@@ -338,6 +346,10 @@ def check(prop, tier, seed, replay, lock):
                 raise LookupError("leave the block through an exception")
         except LookupError:
             pass
+        except Exception as err:  # noqa: BLE001 - the implementation fails inside the block: its failure, not the harness's
+            ctx.fail({"kind": "prelude", "trace": traceback.format_exc()[-1500:]},
+                     f"numpoly.variable(2) + 1 under retain_names=False, retain_coefficients=True raised {type(err).__name__}: {str(err)[:120]}",
+                     ["prelude", "raises"])
     try:
         mod.run(ctx)
     except MalformedResult as err:
